@@ -352,11 +352,11 @@ def r6(chk):
                 and norm(base.value) in returned
         chk.ob("C07.R6", f"{rel}:{q}", "selection-order-recorded", ok,
                "the position of each card in the drawn sample is recorded as its selection_order", node=fn, strength="N")
-    fn = chk.fn(REL, "CVR.prep_comparison_sample")
+    fn = chk.fn(REL, "CVR.prep_comparison_sample", canonical=True)
     sorts = [c for c in walk_local(fn) if isinstance(c, ast.Call) and isinstance(c.func, ast.Attribute) and c.func.attr == "sort"]
     keys = {}
     for c in sorts:
-        kw = {k.arg: k.value for k in c.keywords}
+        kw = {k.arg: expand_locals(k.value, fn, allow_lambda=True) for k in c.keywords}  # a key function may be named first
         if "key" in kw and "reverse" not in kw and isinstance(kw["key"], ast.Lambda):
             p = kw["key"].args.args[0].arg
             keys[norm(c.func.value)] = norm(kw["key"].body).replace(p + ".", "X.")
